@@ -61,7 +61,11 @@ VH_MAIN {
     if (in.is_rec) ASSERT(bb.recdimsize >= maxrec && bb.recdimsize >= in.recdimsize, "the record count seen through the driver covers every record staged");
     else ASSERT(bb.recdimsize == in.recdimsize, "fixed-size variables do not change the record count");
     ASSERT(szvals[0] == (size_t)total && idx[0].valid == 1, "per-entry size and index bookkeeping");
+#if NUM > 1
     COVER(!in.counts_null && in.count[0] > in.count[NUM - 1] && in.count[NUM - 1] > 0 && total > in.maxentrysize, "first sub-request larger than the last, entry larger than every earlier one");
+#else
+    COVER(total > in.maxentrysize, "entry larger than every earlier one");
+#endif
     COVER(in.is_rec && maxrec > in.recdimsize, "record count raised");
     WITNESS_END();
     VH_RETURN;
